@@ -65,6 +65,22 @@ theorem C07_relaxed_load_races :
     (∃ acc, (h.core.th 1).pc = .cs (.single false) 1 acc) ∧ ¬ (h.last 0 ≤ h.clk 1 0) := by
   refine ⟨⟨[], by decide⟩, by decide⟩
 
+/-- **The orderings `IW/Weak.lean` relies on, read off the current source**: every store to `completed` (`get`, `fetch_n`,
+`early_exit`, `mark_completed`, the unwind guard) and the loads of `completed` right after reserving and at the thread's
+turn (in `progress_and_get_begin_idx` and in `get`) are `SeqCst` — so those loads cannot return a stale `false` —, and
+only the load in the spin loop is `Relaxed` (the one `stepS` lets be stale). -/
+theorem ord_completed_as_modelled :
+    Orx.Generated.Orderings.completed_progress_and_get_begin_idx_load0 = .seqcst ∧
+    Orx.Generated.Orderings.completed_progress_and_get_begin_idx_load1 = .seqcst ∧
+    Orx.Generated.Orderings.completed_get_load0 = .seqcst ∧
+    Orx.Generated.Orderings.completed_get_load1 = .seqcst ∧
+    Orx.Generated.Orderings.completed_get_store2 = .seqcst ∧
+    Orx.Generated.Orderings.completed_fetch_n_store0 = .seqcst ∧
+    Orx.Generated.Orderings.completed_early_exit_store0 = .seqcst ∧
+    Orx.Generated.Orderings.completed_mark_completed_store0 = .seqcst ∧
+    Orx.Generated.Orderings.completed_drop_store0 = .seqcst ∧
+    Orx.Generated.Orderings.completed_try_get_len_load0 = .seqcst := by decide
+
 /-! ## Beyond SC interleavings: stale loads (`IW/Weak.lean`)
 
 `runS` lets the `Acquire` load of `yielded` return any older value and the `Relaxed` load of `completed` return a stale
